@@ -15,24 +15,27 @@ use lattices::cc_traits::{
 // CapSet
 // ---------------------------------------------------------------------------------------------
 
+/// Storage is a plain `[T; CAP]` + `len` (no `Option` slots): an `Option` slot would give the type a
+/// niche that an outer `Option<CapSet<..>>` (map values!) re-uses, and Kani 0.68 then reports spurious
+/// "unreachable code" in `Option::as_ref` that does not reproduce natively (DESIGN §6, false alarms).
 #[derive(Clone, Copy, Debug)]
 pub struct CapSet<T, const CAP: usize> {
-    pub items: [Option<T>; CAP],
+    pub items: [T; CAP],
     pub len: usize,
 }
-impl<T: Copy + Eq, const CAP: usize> Default for CapSet<T, CAP> {
+impl<T: Copy + Eq + Default, const CAP: usize> Default for CapSet<T, CAP> {
     fn default() -> Self {
-        CapSet { items: [None; CAP], len: 0 }
+        CapSet { items: [T::default(); CAP], len: 0 }
     }
 }
-impl<T: Copy + Eq, const CAP: usize> CapSet<T, CAP> {
+impl<T: Copy + Eq + Default, const CAP: usize> CapSet<T, CAP> {
     pub fn has(&self, x: &T) -> bool {
         self.pos(x).is_some()
     }
     pub fn pos(&self, x: &T) -> Option<usize> {
         let mut i = 0;
         while i < self.len {
-            if self.items[i].as_ref() == Some(x) {
+            if self.items[i] == *x {
                 return Some(i);
             }
             i += 1;
@@ -45,7 +48,7 @@ impl<T: Copy + Eq, const CAP: usize> CapSet<T, CAP> {
             false
         } else {
             assert!(self.len < CAP, "CapSet capacity (harness sizing error)");
-            self.items[self.len] = Some(x);
+            self.items[self.len] = x;
             self.len += 1;
             true
         }
@@ -56,9 +59,8 @@ impl<T: Copy + Eq, const CAP: usize> CapSet<T, CAP> {
                 let r = self.items[i];
                 // swap-remove keeps the prefix dense
                 self.items[i] = self.items[self.len - 1];
-                self.items[self.len - 1] = None;
                 self.len -= 1;
-                r
+                Some(r)
             }
             None => None,
         }
@@ -79,9 +81,9 @@ impl<'a, T, const CAP: usize> Iterator for CapSetIter<'a, T, CAP> {
     type Item = &'a T;
     fn next(&mut self) -> Option<&'a T> {
         if self.i < self.s.len && self.i < CAP {
-            let r = self.s.items[self.i].as_ref();
+            let r = &self.s.items[self.i];
             self.i += 1;
-            r
+            Some(r)
         } else {
             None
         }
@@ -91,33 +93,33 @@ pub struct CapSetIntoIter<T, const CAP: usize> {
     s: CapSet<T, CAP>,
     i: usize,
 }
-impl<T, const CAP: usize> Iterator for CapSetIntoIter<T, CAP> {
+impl<T: Copy, const CAP: usize> Iterator for CapSetIntoIter<T, CAP> {
     type Item = T;
     fn next(&mut self) -> Option<T> {
         if self.i < self.s.len && self.i < CAP {
-            let r = self.s.items[self.i].take();
+            let r = self.s.items[self.i];
             self.i += 1;
-            r
+            Some(r)
         } else {
             None
         }
     }
 }
-impl<T, const CAP: usize> IntoIterator for CapSet<T, CAP> {
+impl<T: Copy, const CAP: usize> IntoIterator for CapSet<T, CAP> {
     type Item = T;
     type IntoIter = CapSetIntoIter<T, CAP>;
     fn into_iter(self) -> Self::IntoIter {
         CapSetIntoIter { s: self, i: 0 }
     }
 }
-impl<T: Copy + Eq, const CAP: usize> Extend<T> for CapSet<T, CAP> {
+impl<T: Copy + Eq + Default, const CAP: usize> Extend<T> for CapSet<T, CAP> {
     fn extend<I: IntoIterator<Item = T>>(&mut self, iter: I) {
         for x in iter {
             self.put(x);
         }
     }
 }
-impl<T: Copy + Eq, const CAP: usize> FromIterator<T> for CapSet<T, CAP> {
+impl<T: Copy + Eq + Default, const CAP: usize> FromIterator<T> for CapSet<T, CAP> {
     fn from_iter<I: IntoIterator<Item = T>>(iter: I) -> Self {
         let mut s = Self::default();
         s.extend(iter);
@@ -150,12 +152,8 @@ where
     fn get(&self, key: &'a Q) -> Option<&T> {
         let mut i = 0;
         while i < self.len {
-            {
-                if let Some(x) = self.items[i].as_ref() {
-                    if x.borrow() == key {
-                        return Some(x);
-                    }
-                }
+            if self.items[i].borrow() == key {
+                return Some(&self.items[i]);
             }
             i += 1;
         }
@@ -171,18 +169,18 @@ impl<T, const CAP: usize> Iter for CapSet<T, CAP> {
         CapSetIter { s: self, i: 0 }
     }
 }
-impl<T: Copy + Eq, const CAP: usize> Insert for CapSet<T, CAP> {
+impl<T: Copy + Eq + Default, const CAP: usize> Insert for CapSet<T, CAP> {
     type Output = bool;
     fn insert(&mut self, element: T) -> bool {
         self.put(element)
     }
 }
-impl<'a, T: Copy + Eq, const CAP: usize> Remove<&'a T> for CapSet<T, CAP> {
+impl<'a, T: Copy + Eq + Default, const CAP: usize> Remove<&'a T> for CapSet<T, CAP> {
     fn remove(&mut self, key: &'a T) -> Option<T> {
         self.take(key)
     }
 }
-impl<T: Copy + Eq, const CAP: usize> Clear for CapSet<T, CAP> {
+impl<T: Copy + Eq + Default, const CAP: usize> Clear for CapSet<T, CAP> {
     fn clear(&mut self) {
         *self = Self::default();
     }
